@@ -7,6 +7,7 @@ FUNCTIONS = [f"{G}:GHE.size", f"{U}:solve_root", f"{G}:BaseGHE.cost", f"{S}:Bise
              f"{OM}.get_summary_object", f"{OM}.get_borehole_location_data"]
 NATIVE_FUNCTIONS = [f"{G}:GHE.size"]
 NATIVE_CASES = {"quick": 6, "thorough": 150}
+NATIVE_LIMIT_S = {"quick": 150, "thorough": 1500}
 CASE_TIMEOUT = 120
 LEVEL = "proof"
 ASSUMPTIONS = [A_REAL, A_ENGINE, A_DET,
